@@ -150,6 +150,16 @@ type ip4F struct {
 	tos, id, ff, ttl, proto uint64
 	src, dst                []byte
 	opt                     optSpec
+	pad                     []byte // IPv4.Padding: what a decoded header kept from the option alignment area
+}
+
+// rawLen: bytes of the option list before alignment
+func (o optSpec) rawLen() int {
+	n := o.nnop
+	if o.kind != 0 {
+		n += 2 + len(o.odata)
+	}
+	return n
 }
 
 func buildIp4(f ip4F, payload []byte, csum bool) ([]byte, error) {
@@ -161,6 +171,7 @@ func buildIp4(f ip4F, payload []byte, csum bool) ([]byte, error) {
 	if f.opt.kind != 0 {
 		ip.Options = append(ip.Options, layers.IPv4Option{OptionType: uint8(f.opt.kind), OptionLength: uint8(2 + len(f.opt.odata)), OptionData: f.opt.odata})
 	}
+	ip.Padding = f.pad
 	buf := gopacket.NewSerializeBuffer()
 	err := gopacket.SerializeLayers(buf, gopacket.SerializeOptions{FixLengths: true, ComputeChecksums: csum}, ip, gopacket.Payload(payload))
 	return buf.Bytes(), err
@@ -763,7 +774,23 @@ func execEmit(a []string) string {
 		if !ok1 || !ok2 || !ok3 || !ok4 || !ok5 || len(s) != 4 || len(d) != 4 {
 			return "bad-op"
 		}
-		out, err := buildIp4(ip4F{v[0], v[1], v[2], v[3], v[4], s, d, o}, pl, true)
+		out, err := buildIp4(ip4F{v[0], v[1], v[2], v[3], v[4], s, d, o, nil}, pl, true)
+		return emitReply("ip4", "-", nil, nil, out, err, true)
+	case "ip4p": // IPv4 with a Padding field (bytes kept from the option alignment area of a decoded header)
+		if len(a) != 16 || a[3] != "-" {
+			return "bad-op"
+		}
+		s, ok1 := lib.UnHex(a[4])
+		d, ok2 := lib.UnHex(a[5])
+		v, ok3 := nats(a[6:11], 256, 65536, 65536, 256, 256)
+		o, ok4 := parseOpt(a[11:14])
+		pad, ok6 := lib.UnHex(a[14])
+		pl, ok5 := bytesSpec(a[15])
+		if !ok1 || !ok2 || !ok3 || !ok4 || !ok5 || !ok6 || len(s) != 4 || len(d) != 4 || len(pad) > 8 || (o.rawLen()+len(pad)+3)/4*4 > 40 {
+			return "bad-op"
+		}
+		lib.Stat("emit:ip4:with-padding")
+		out, err := buildIp4(ip4F{v[0], v[1], v[2], v[3], v[4], s, d, o, pad}, pl, true)
 		return emitReply("ip4", "-", nil, nil, out, err, true)
 	case "tcp":
 		if len(a) != 17 || !ok || ipver == "-" {
